@@ -687,12 +687,12 @@ pub fn run_c37(ctx: &mut Ctx) {
     let twice = vec![vec![0, 0], vec![0]];
     let three = vec![vec![0], vec![0], vec![0]];
     let three_mixed = vec![vec![0, 1], vec![1, 0], vec![0]];
-    let n = ctx.budget(150, 1500);
+    let n = ctx.budget(150, 900);
     // Per subtree (a quarter of a scenario). The largest exhaustive scenario
-    // of the tier has 502 (quick) / 15 346 (thorough) schedules in total; a
+    // of the tier has 502 (quick) / 1647 (thorough) schedules in total; a
     // code change that removes blocking makes the space explode, so cap it
     // (a capped scenario is not claimed exhaustive and its count not compared).
-    let cap = if ctx.quick() { 1500 } else { 12_000 };
+    let cap = if ctx.quick() { 1500 } else { 4000 };
     let mut groups = Vec::new();
     for variant in ["rsync", "rrdp"] {
         // Two threads, one key, one call (thorough: also two calls): every
@@ -717,8 +717,6 @@ pub fn run_c37(ctx: &mut Ctx) {
             groups.push((0..6).map(|_| Job::Sampled {
                 variant, calls: three_mixed.clone(), n: n / 6, rng: ctx.rng.fork()
             }).collect());
-            // Two keys: every interleaving (15 346 schedules).
-            groups.push(exhaustive_jobs(variant, &two_then, cap));
         }
     }
     run_groups(ctx, groups, lanes());
